@@ -12,7 +12,8 @@
      W_RefuseIsSilent   a refused call queues nothing and leaves the writer as it was
      W_CanFinish        (not a dead protocol) from every state the documented order still completes the share
    The constant Weaken drops one clause of the rule ("none" = the rule itself) to show that the properties are
-   not vacuous: with any other value TLC finds a violation of W_FieldsIntact / W_FinishComplete. *)
+   not vacuous: with any other value TLC finds a violation (W_OffsetsStable first, it is the shallowest; W_FieldsIntact
+   deeper; W_FinishComplete for "finish_without_tree"). *)
 EXTENDS MutableLayout
 
 CONSTANTS Fmts, MaxCalls, Weaken
